@@ -246,6 +246,10 @@ LIKE_PAIRS = [("a*", "abc"), ("a*", "Abc"), ("A*", "abc"), ("arn:aws:s3:::b?cket
               ("arn:aws:s3:::b?cket/*", "arn:aws:s3:::BUCKET/x"), ("a.c", "abc"), ("a.c", "a.c"), ("(a", "(a"), ("*", ""),
               ("?", ""), ("?", "é"), ("?", "é"), ("a$", "a$"), ("^a", "^a"), ("[a]", "a"), ("a|b", "a"), ("a\\", "a\\"),
               ("é*", "été"), ("é*", "été"), ("*ß", "Straß"), ("*ß", "STRASS")]
+# a question mark right after a star still asks for one more character (seeded changes C11-r4m2 / C09-r5m2 dropped it; these pairs
+# make the detection independent of the random stream)
+LIKE_PAIRS += [("team-*?", "team-"), ("team-*?", "team-x"), ("arn:aws:s3:::logs-*?/*", "arn:aws:s3:::logs-/x"), ("a*?*?", "ab"),
+               ("a*?*?", "abc"), ("*?", ""), ("*?", "x"), ("**?", ""), ("a?*", "a"), ("a?*", "ab")]
 WRONG = [None, 0, 1, True, False, 5, "", "x", [], ["a"], [1], {"$net": "10.0.0.0/8"}, {"$bytes": "YQ=="},
          {"$dt": "2020-01-01T00:00:00+00:00"}, {"$dt": "2020-01-01T00:00:00"}]
 INTS = [0, 1, -1, 2, 5, 255, 2 ** 31 - 1, 2 ** 31, 2 ** 32, 2 ** 53, 2 ** 63 - 1, -2 ** 63, 2 ** 63, 2 ** 64, 10 ** 30, -10 ** 30, 1577836800]
